@@ -3,6 +3,7 @@ From Coq Require Import List Arith Bool ZArith.
 From Coq Require Import Init.Byte.
 From Nitro Require Import Base.Bytes Base.Res Opt.Token Opt.Decl Opt.ParserModel Opt.ParserCore Opt.ParserSpec Opt.Vocab Opt.Run
   Opt.RefineDefs Opt.Corollaries Opt.CoreEq Opt.History Opt.Positional Opt.Lexical Opt.Refine5 Opt.Sample.
+From Nitro Require Fmt.FormatProofs.
 Import ListNotations.
 
 (* For every declaration, every legal item list (any choice of --name v / --name=v / -c v / -c=v per occurrence, any bundling
@@ -43,6 +44,12 @@ Theorem C02_assignment_is_the_aggregate : forall d e items tail r,
   r_pos r = inline_pos items ++ match tail with Some ps => ps | None => [] end.
 Proof. exact (assignment_reports truthy falsy). Qed.
 Print Assumptions C02_assignment_is_the_aggregate.
+
+(* typed access returns the number whose decimal text was given (PARTIAL: as_long models as<long>() on plain decimal texts only;
+   that libstdc++'s operator>> computes it is exercised by the driver on rendered integers across the range of long) *)
+Theorem C02_typed_access_roundtrip : forall z, as_long (dec_text z) = Some z.
+Proof. exact Fmt.FormatProofs.print_dec_roundtrip. Qed.
+Print Assumptions C02_typed_access_roundtrip.
 
 (* K1 (known finding): without no_clash the round trip is false — toggles no-q and reversible q: --no-q is read as the toggle no-q *)
 Theorem C02_refuted_without_no_clash : exists d items tail,
